@@ -36,9 +36,9 @@ func init() {
 		},
 		N: func(t string) int {
 			if t == "thorough" {
-				return 240000
+				return 2000000
 			}
-			return 9000
+			return 60000
 		},
 		Batch: 3000,
 		Init:  per.SelfTest,
